@@ -74,6 +74,11 @@ VH_ENTRY vh_silf_header() {
     printf("aLig %u numPseudo %u numJusts %u numPasses %u\n", s->m_aLig, s->m_numPseudo, s->m_numJusts, s->m_numPasses);
 #endif
     ASSERT(s->m_aLig <= 127 && s->m_numPseudo == NPS && s->m_numJusts == NJ, "accepted: ligature attribute and counts as announced");
+#ifdef REACH_ACCEPT
+    VH_END();
+#endif
   }
+#ifndef REACH_ACCEPT
   VH_END();
+#endif
 }
